@@ -3,7 +3,7 @@
 # Applies each patch to its own scratch copy of /repo's stepup package (outside /repo and /verif, removed afterwards)
 # and runs every quick check against it; prints one line per check that does not exit 0.  Used with the
 # behaviour-preserving refactorings in harmless/ (none may raise an alarm) -- all patches run at the same time, which
-# also exercises the checks on a busy machine.
+# also exercises the checks on a busy machine.  SKIP_BOUNDED=1 leaves the bounded stand-ins out (deductive part only).
 verif="$(cd "$(dirname "$0")/.." && pwd)"
 outdir=$(mktemp -d /tmp/pyvc-patches.XXXX)
 one() {
@@ -12,7 +12,7 @@ one() {
   cp -r /repo/stepup $d/stepup
   (cd $d && patch -s -p1 < $p) || { echo "$n: does not apply"; rm -rf $d; return; }
   for id in C02 C03 C04 C05 C06 C07 C08 C09 C10 C11 C12 C13 C15 C16 C17 C18 C19 C20; do
-    (cd $verif && VERIF_REPO=$d VERIF_OUT=$d/out ./check $id --tier quick > $outdir/$n.$id.txt 2>&1)
+    (cd $verif && VERIF_REPO=$d VERIF_OUT=$d/out VERIF_SKIP_BOUNDED="${SKIP_BOUNDED:-}" ./check $id --tier quick > $outdir/$n.$id.txt 2>&1)
     rc=$?
     [ $rc -ne 0 ] && echo "$n $id exit=$rc $(grep -m3 '^FAILED\|^CHECKER' $outdir/$n.$id.txt | tr '\n' '|' | cut -c1-300)"
   done
